@@ -68,15 +68,19 @@ def mk_sizer(c, broker):
 def mk_universe(u):
     if u[0] == 'static':
         return StaticUniverse(list(u[1]))
-    missing = pd.NaT if (len(u) > 2 and u[2] == 'nat') else None      # a missing entry date as None or as pandas' NaT
-    return DynamicUniverse(dict((a, (missing if e is None else ts(e))) for a, e in u[1]))
+    flags = u[2] if len(u) > 2 else ''
+    missing = pd.NaT if 'nat' in flags else None      # a missing entry date as None or as pandas' NaT
+    zones = ['America/New_York', 'Asia/Tokyo', 'Europe/London', 'Australia/Sydney']
+    # 'tz': the same entry instants, written in other time zones
+    when = (lambda i, e: ts(e).tz_convert(zones[i % 4])) if 'tz' in flags else (lambda i, e: ts(e))
+    return DynamicUniverse(dict((a, (missing if e is None else when(i, e))) for i, (a, e) in enumerate(u[1])))
 
 
 def handler(c):
     op = c['op']
     try:
         if op == 'sizer':
-            stub = StubBroker(c['equity'], c['fee'])
+            stub = StubBroker(c['equity'], c.get('warm_fee', c['fee']))
             sizer = mk_sizer(c, stub)
             for wv in c.get('warmup_calls', []):
                 stub.equity = c['equity'] * 3 + 1000.0          # and another equity, at the same timestamp
@@ -86,6 +90,7 @@ def handler(c):
                 except Exception:
                     pass
             stub.equity = c['equity']
+            stub.fee_model = mk_fee(c['fee'])
             r = sizer(ts(0), dict((a, w) for a, w in c['weights']))
             return ['ok', [[a, num(v['quantity'])] for a, v in r.items()], [type(v['quantity']).__name__ for v in r.values()]]
         if op == 'universe':
